@@ -184,17 +184,7 @@ func (w *genWalker) concStmt(st ast.Stmt) {
 		w.needHook = true
 		w.rep.SyncBracketed++
 	case *ast.SelectStmt:
-		w.es.insert(w.off(x.Pos()), "verifhook.Pre(); ")
-		for _, cl := range x.Body.List {
-			if cc, ok := cl.(*ast.CommClause); ok {
-				w.es.insert(w.off(cc.Colon)+1, " verifhook.Post();")
-			}
-		}
-		if len(x.Body.List) == 0 {
-			w.es.insert(w.off(x.End()), "; verifhook.Post()")
-		}
-		w.needHook = true
-		w.rep.SyncBracketed++
+		w.rewriteSelect(x)
 	case *ast.IfStmt:
 		if (x.Init != nil && w.countBlocking(x.Init) > 0) || w.countBlocking(x.Cond) > 0 {
 			w.unmodelled(x.Pos(), "blocking operation in an if header")
@@ -226,4 +216,168 @@ func (w *genWalker) concStmt(st ast.Stmt) {
 			w.unmodelled(x.Pos(), "deferred blocking call")
 		}
 	}
+}
+
+// rewriteSelect turns a select into a poll of its cases in an order drawn from the tape: when several cases are
+// ready the runtime would pick one at random, and that choice has to be the simulator's. The clauses stay where
+// they are (insertions and keyword replacements only):
+//
+//	select {                      { verifhook.Pre(); var verifFiredK bool; verifSelK := verifhook.NewSelect(2, true)
+//	case v := <-a:                verifTryK: switch verifSelK.Next() {
+//	    A                         case 0: select { case v := <-a: verifFiredK = true; verifhook.Post()
+//	case b <- x:                      A
+//	    B                             default: }
+//	default:                      case 1: select { case b <- x: verifFiredK = true; verifhook.Post()
+//	    D                             B
+//	}                                 default: }
+//	                              case -1: verifFiredK = true; verifhook.Post()
+//	                                  D
+//	                              }; if !verifFiredK { goto verifTryK } }
+//
+// Without a default clause `case -1` waits until another task has run and polls again. An unlabelled break inside
+// a clause still leaves the (inner) select, continue still reaches the enclosing loop. Operands must be pure
+// (they are evaluated once per poll); otherwise the select keeps its real form, bracketed with Pre/Post, and is
+// listed as not modelled.
+func (w *genWalker) rewriteSelect(x *ast.SelectStmt) {
+	bracketOnly := func(why string) {
+		w.es.insert(w.off(x.Pos()), "verifhook.Pre(); ")
+		for _, cl := range x.Body.List {
+			if cc, ok := cl.(*ast.CommClause); ok {
+				w.es.insert(w.off(cc.Colon)+1, " verifhook.Post();")
+			}
+		}
+		if len(x.Body.List) == 0 {
+			w.es.insert(w.off(x.End()), "; verifhook.Post()")
+		}
+		w.needHook = true
+		w.rep.SyncBracketed++
+		if why != "" {
+			w.unmodelled(x.Pos(), "select kept in its real form (the runtime picks among ready cases): "+why)
+		}
+	}
+	if len(x.Body.List) == 0 {
+		bracketOnly("")
+		return
+	}
+	n := 0
+	hasDefault := false
+	for _, cl := range x.Body.List {
+		cc := cl.(*ast.CommClause)
+		if cc.Comm == nil {
+			hasDefault = true
+			continue
+		}
+		n++
+		var operands []ast.Expr
+		switch c := cc.Comm.(type) {
+		case *ast.SendStmt:
+			operands = []ast.Expr{c.Chan, c.Value}
+		case *ast.ExprStmt:
+			if u, ok := c.X.(*ast.UnaryExpr); ok && u.Op == token.ARROW {
+				operands = []ast.Expr{u.X}
+			}
+		case *ast.AssignStmt:
+			if len(c.Rhs) == 1 {
+				if u, ok := c.Rhs[0].(*ast.UnaryExpr); ok && u.Op == token.ARROW {
+					operands = []ast.Expr{u.X}
+				}
+			}
+			for _, l := range c.Lhs {
+				if !pureOperand(l) {
+					bracketOnly("assignment target with side effects")
+					return
+				}
+			}
+		}
+		if operands == nil {
+			bracketOnly("unrecognised communication clause")
+			return
+		}
+		for _, o := range operands {
+			if !w.selectPure(o) {
+				bracketOnly("operand with side effects: " + w.text(o))
+				return
+			}
+		}
+	}
+	if n == 0 {
+		bracketOnly("")
+		return
+	}
+	w.selN++
+	k := fmt.Sprintf("%d", w.selN)
+	w.es.replace(w.off(x.Select), w.off(x.Body.Lbrace)+1,
+		fmt.Sprintf("{ verifhook.Pre(); var verifFired%s bool; verifSel%s := verifhook.NewSelect(%d, %v); verifTry%s: switch verifSel%s.Next() {", k, k, n, hasDefault, k, k))
+	idx := 0
+	for i, cl := range x.Body.List {
+		cc := cl.(*ast.CommClause)
+		end := x.Body.Rbrace
+		if i+1 < len(x.Body.List) {
+			end = x.Body.List[i+1].Pos()
+		}
+		if cc.Comm == nil {
+			w.es.replace(w.off(cc.Case), w.off(cc.Case)+len("default"), "case -1")
+			w.es.insert(w.off(cc.Colon)+1, fmt.Sprintf(" verifFired%s = true; verifhook.Post();", k))
+			continue
+		}
+		w.es.replace(w.off(cc.Case), w.off(cc.Case)+len("case"), fmt.Sprintf("case %d: select { case", idx))
+		w.es.insert(w.off(cc.Colon)+1, fmt.Sprintf(" verifFired%s = true; verifhook.Post();", k))
+		w.es.insert(w.off(end), "\ndefault: }\n")
+		idx++
+	}
+	tail := ""
+	if !hasDefault {
+		tail = fmt.Sprintf("case -1: verifSel%s.Wait()\n", k)
+	}
+	w.es.replace(w.off(x.Body.Rbrace), w.off(x.Body.Rbrace)+1, fmt.Sprintf("%s}; if !verifFired%s { goto verifTry%s } }", tail, k, k))
+	w.needHook = true
+	w.rep.SyncBracketed++
+	w.rep.SelectsPolled++
+}
+
+// selectPure: evaluating the operand once per poll instead of once per select makes no difference.
+func (w *genWalker) selectPure(e ast.Expr) bool {
+	switch x := e.(type) {
+	case *ast.Ident, *ast.BasicLit:
+		return true
+	case *ast.SelectorExpr:
+		return w.selectPure(x.X)
+	case *ast.ParenExpr:
+		return w.selectPure(x.X)
+	case *ast.IndexExpr:
+		return w.selectPure(x.X) && w.selectPure(x.Index)
+	case *ast.StarExpr:
+		return w.selectPure(x.X)
+	case *ast.CompositeLit:
+		for _, el := range x.Elts {
+			if kv, ok := el.(*ast.KeyValueExpr); ok {
+				el = kv.Value
+			}
+			if !w.selectPure(el) {
+				return false
+			}
+		}
+		return true
+	case *ast.UnaryExpr:
+		return x.Op != token.ARROW && w.selectPure(x.X)
+	case *ast.BinaryExpr:
+		return w.selectPure(x.X) && w.selectPure(x.Y)
+	case *ast.CallExpr:
+		// ctx.Done() and conversions: evaluated again per poll, harmless (time.After would make a new timer per poll)
+		if sel, ok := x.Fun.(*ast.SelectorExpr); ok && len(x.Args) <= 1 {
+			switch sel.Sel.Name {
+			case "Done":
+				for _, a := range x.Args {
+					if !w.selectPure(a) {
+						return false
+					}
+				}
+				return w.selectPure(sel.X)
+			}
+		}
+		if tv, ok := w.pkg.TypesInfo.Types[x.Fun]; ok && tv.IsType() && len(x.Args) == 1 {
+			return w.selectPure(x.Args[0])
+		}
+	}
+	return false
 }
